@@ -1,16 +1,24 @@
 import vf
 def build(tier, seed):
     quick = tier == 'quick'
-    pl, sl, nr = (3, 5, 2) if quick else (4, 6, 2)
+    pl, sl, nr = (4, 6, 2) if quick else (5, 7, 3)
     D = ['PL=%d' % pl, 'SL=%d' % sl, 'NR=%d' % nr]
     U = [vf.Unit('cmdline/elem.c', flags=vf.PATHMAX64), vf.Unit('cmdline/support.c', flags=vf.PATHMAX64, remove=['log_fatal', 'log_tag', 'log_error', 'log_expected', 'log_flush', 'msg_status', 'msg_info', 'msg_progress', 'msg_bar', 'msg_verbose', 'msg_flush', 'malloc_nofail'])]
     funcs = ['filter_alloc_file', 'filter_apply', 'filter_recurse', 'filter_element', 'filter_path', 'filter_subdir', 'filter_emptydir', 'filter_content', 'pathcpy', 'pathimport', 'pathprint', 'pathcmp']
     J = []
     uw = max(pl, sl) + 9
-    for e in ('c18_alloc', 'c18_rules', 'c18_content'):
+    for e in ('c18_alloc', 'c18_content'):
         J.append(vf.Job('C18/' + e, ['C18_filter.c', 'stubs/log_stubs.c'], units=U, entry=e, defines=D, cflags=vf.PATHMAX64, unwind=uw, unwindset=['fnmatch.0:17'],
                         timeout=1200 if quick else 5400, mem_gb=8, funcs=funcs, cost=30,
-                        sample={'entry': e, 'pattern_bytes<=': pl, 'path_bytes<=': sl, 'rules<=': nr, 'fnmatch': 'uninterpreted consistent function'}))
+                        sample={'entry': e, 'pattern_bytes<=': pl, 'path_bytes<=': sl, 'fnmatch': 'uninterpreted consistent function'}))
+    shapes = ['a', 'a/b', 'a/a', 'a/b/c', 'a/a/b', 'a/b/a', 'a/b/b', 'a/a/a'] + ([] if quick else ['a/b/c/d', 'a/b/a/b', 'ab/c'])
+    for sh in shapes:
+      for n in range(0, nr + 1):
+        if quick and n == 2 and sh not in ('a/b', 'a/a/b'):
+            continue
+        J.append(vf.Job('C18/c18_rules/%s/rules%d' % (sh.replace('/', '_'), n), ['C18_filter.c', 'stubs/log_stubs.c'], units=U, entry='c18_rules', defines=['PL=%d' % pl, 'NR=%d' % n, 'PATH_STR="%s"' % sh, 'SL=8'], cflags=vf.PATHMAX64, unwind=uw, unwindset=['fnmatch.0:17'],
+                        timeout=1200 if quick else 5400, mem_gb=8, funcs=funcs, cost=30,
+                        sample={'entry': 'c18_rules', 'path_structure': sh, 'rules': n, 'rule kind/direction/count, entry point, matcher answers': 'symbolic'}))
     J.append(vf.Job('C18/negctl', ['C18_filter.c', 'stubs/log_stubs.c'], units=U, entry='c18_negctl', defines=D + ['NEGCTL'], cflags=vf.PATHMAX64, unwind=uw, unwindset=['fnmatch.0:17'],
                     kind='negctl', sample={'wrong_oracle': 'last matching rule wins'}))
     return dict(jobs=J, bounds={'pattern_bytes': pl, 'path_bytes': sl, 'rules': nr},
